@@ -400,6 +400,14 @@ def history_cases(draw):
     for s in sc['sources']:
         s['amp'] = max(s['amp'], 25.0)
     sc['noise_sigma'] = draw(st.sampled_from([0.3, 0.6]))
+    # faint compact sources give tiny segments (quadratic fits fail and fall
+    # back to the barycentre, windowed centroids do not converge, ...)
+    for _ in range(draw(st.integers(0, 3))):
+        sc['sources'].append({'x': draw(st.floats(3, sc['shape'][1] - 4)),
+                              'y': draw(st.floats(3, sc['shape'][0] - 4)),
+                              'sx': 0.7, 'sy': 0.7, 'theta': 0.0,
+                              'amp': draw(st.floats(6, 12)), 'dx2': 0.0,
+                              'dy2': 0.0, 'f2': 0.0})
     kind = draw(st.sampled_from(['cat', 'cat', 'aps']))
     return {
         'scene': sc, 'thr': 2.5, 'kind': kind,
